@@ -202,6 +202,12 @@ def floats():
                        "int->float/source-used-again/%s->%s" % (it, t))
             yield case("long long f@(%s a, int b){ long long n = (long long)a; %s h = a / 2; return n + (long long)h + (long long)(a + h); }" % (t, t), "long long", [t, "int"], "F",
                        "float->int/source-used-again/%s" % t)
+    # initialised arrays of structs whose last member leaves tail padding, and nested ones
+    yield case("struct S@ { int i; char c; }; struct S@ ga@[3] = { {1, 2}, {3, 4}, {5} }; int f@(int a, int b){ return ga@[a & 1].i * 100 + ga@[b & 1].c * 10 + ga@[2].i + ga@[2].c + (int)sizeof(ga@); }",
+               "int", ["int", "int"], "A", "struct-array-initialised/tail-padding", globals_=["ga@"])
+    yield case("struct S@ { unsigned x : 3; char c; }; struct O@ { struct S@ s[2]; short t; }; struct O@ go@[2] = { { { {5, 6}, {7, 8} }, 9 }, { { {1, 2} }, 3 } }; "
+               "int f@(int a, int b){ return go@[a & 1].s[b & 1].x * 1000 + go@[a & 1].s[b & 1].c * 10 + go@[b & 1].t; }", "int", ["int", "int"], "A",
+               "struct-array-initialised/nested-bitfield", globals_=["go@"])
     # memory operands at displacements around the 8 bit limit (base + 127 / 128 / 129, base - 128 / - 129)
     yield case("struct S@ { char pad[124]; int w; int x; int y; }; struct S@ gb@; int f@(int a, int b){ struct S@ *p = &gb@; p->pad[123] = (char)a; p->w = a - b; p->x = b; p->y = a + b; "
                "return p->x * 3 + p->y + p->pad[123] + p->w * 7; }", "int", ["int", "int"], "A", "struct-field-offset-124-128-132", restore=["gb@"])
